@@ -22,6 +22,46 @@ EXPLANATION = ('SNAPSHOT-COMPLETENESS: every field of Group is copied into Snaps
 ASSUMPTIONS = ['SQL statement texts are opaque constants; rusqlite::Transaction rolls back on drop']
 
 
+def sql_statements(P, crate='mls_rs_provider_sqlite'):
+    out = []
+    for f in P.fns.values():
+        if f['crate'] != crate:
+            continue
+        for b in f['blocks']:
+            for st in b['st']:
+                rv = st['rv']
+                if rv['k'] == 'use' and rv['o']['k'] == 'const':
+                    c = rv['o']['v'].get('c', '')
+                    if re.search(r'\b(SELECT|INSERT|UPDATE|DELETE)\b.*\b(FROM|INTO|SET)\b', c):
+                        out.append((f, st['ln'], c.strip('"')))
+    return out
+
+
+def sql_scope(P):
+    """The `epoch` and `mls_group` tables hold the records of ALL groups of a database. Every statement that reads, updates or
+    deletes rows of them must name the group (`group_id = ?`), and every INSERT must fill the group_id column; the only
+    exception is the listing of all group ids. (Statement texts are otherwise opaque to the analysis.)"""
+    r = Res()
+    for f, ln, sql in sql_statements(P):
+        m = re.search(r'\b(?:FROM|INTO|UPDATE)\s+(epoch|mls_group)\b', sql, re.I)
+        if not m:
+            continue
+        r.site('%s @%s %s' % (f['qual'], ln, sql[:90]))
+        up = sql.upper()
+        if up.startswith('INSERT'):
+            if not re.search(r'\(\s*group_id\s*,', sql, re.I):
+                r.bad('insert-without-group:%s' % f['qual'], 'INSERT into %s in `%s` does not fill group_id: %s' % (m.group(1), f['qual'], sql[:120]), where=[ln])
+            continue
+        if re.match(r'SELECT\s+group_id\s+FROM\s+mls_group\s*$', sql, re.I):
+            continue        # listing of all groups
+        if not re.search(r'group_id\s*=\s*\?', sql, re.I):
+            r.bad('unscoped-statement:%s' % f['qual'], 'SQL statement in `%s` touches table %s without `group_id = ?`: it acts on the rows of every '
+                  'group in the database: %s' % (f['qual'], m.group(1), sql[:140]), where=[ln])
+        if re.search(r'\b(UPDATE|DELETE)\b', up) and m.group(1) == 'epoch' and not re.search(r'epoch_id\s*(=|<=|<)\s*\?', sql, re.I):
+            r.bad('unbounded-epoch-statement:%s' % f['qual'], 'UPDATE / DELETE on table epoch in `%s` is not restricted by epoch_id: %s' % (f['qual'], sql[:140]), where=[ln])
+    return r
+
+
 def run(ctx):
     P = ctx.P
     cfg = ctx.config
@@ -35,7 +75,7 @@ def run(ctx):
                 f = P_.fns[k]
                 body = P_.body(f)
                 o = Origins(body)
-                for bi, t in body.calls_named(r'Connection::(execute|execute_batch|prepare|query_row)$|Statement::execute$'):
+                for bi, t in body.calls_named(r'Connection::(execute|execute_batch|prepare|prepare_cached|query_row)$|(Cached)?Statement::execute$'):
                     s = o.arg_str(t, 0)
                     r.site('%s @%s on %s' % (f['qual'], body.ln(bi), s[:70]))
                     if not re.search(r'Connection::transaction\(|^arg1\.\d+$|transaction', s):
@@ -47,6 +87,7 @@ def run(ctx):
         ctx.check('MUST-PASS', 'sqlite: one transaction per write', lambda P_: must_pass(P_, S, r'Connection::transaction$', before_rx=r'Connection::execute$'), floor=1)
         ctx.check('WIRE', 'sqlite: the snapshot upsert writes the given snapshot',
                   lambda P_: wire(P_, S, r'Connection::execute$', 1, r'INSERT INTO mls_group|INSERT INTO epoch|DELETE FROM epoch', which='all'), floor=3)
+        ctx.check('SQL-SCOPE', 'sqlite: every statement on the per-group tables is scoped by group_id', sql_scope, floor=6)
         ctx.check('MUST-PASS', 'sqlite: GroupStateStorage::write goes through update_group_state',
                   lambda P_: must_pass(P_, 'SqLiteGroupStateStorage as GroupStateStorage::write', r'SqLiteGroupStateStorage::update_group_state$'), floor=1)
         return
